@@ -2,14 +2,17 @@
    Statements only; every proof is `exact <lemma>` (Mesh/TetProofs.v, Mesh/TetTopoProofs.v); Print Assumptions under
    each theorem.  What is NOT proved in full is named `_partial` / `_refuted` and explained where it stands:
 
-   * tet_shape (valences) is proved invariant over every history whose executed steps are additions in every form
-     (accepted or rejected), deletions / collapses in deferred mode, mode switches, clear and property operations;
-     steps that physically remove entities (immediate deletion, garbage collection, collapse in immediate mode) need
-     the kernel's C02 invariants and are carried by the lock-step correspondence + the impl-side shape scan.
+   * tet_shape (valences) is proved invariant over every history whose executed steps are: additions in every form
+     (accepted or rejected), every deletion / garbage collection / collapse in deferred OR fast mode, index swaps, mode
+     switches, clear and property operations.  Outside (TetProofs.outside_partial): physical removal in SLOW immediate
+     mode (it filters the removed handles out of the stored lists and keeps the lengths only by C02's closure property,
+     which is not proved here) and set_face / set_cell (not tet operations); those steps are carried by the lock-step
+     correspondence + the impl-side valence scan.
    * "every cell has four distinct vertices" is REFUTED for the faithful model (and on the library): the
      topology-checked add_cell accepts two "pillows" (C15_four_distinct_vertices_refuted).
-   * collapse_edge: shape + deferred mode kept + returned handle in deferred mode; the characterisation of the
-     resulting cell set is carried by the correspondence and the brute-force oracle (harness/run_tet.cc). *)
+   * collapse_edge: shape in deferred and in immediate fast mode, returned handle in deferred mode; the characterisation
+     of the resulting cell set (and the slow immediate mode) is carried by the correspondence and the brute-force oracle
+     (harness/run_tet.cc). *)
 From Coq Require Import ZArith List.
 From OVM Require Import Base.ListX Gen.TetLabels Kernel.State Kernel.Ops Mesh.TetModel Mesh.TetTopoModel Mesh.TetProofs Mesh.TetTopoProofs.
 Import ListNotations.
@@ -128,7 +131,19 @@ Theorem C15_collapse_partial : forall s he s' r, tet_shape s /\ deferred s = tru
 Proof. exact collapse_edge_deferred. Qed.
 Print Assumptions C15_collapse_partial.
 
+Theorem C15_collapse_immediate_fast_partial : forall s he s' r, tet_shape s -> deferred s = false -> fast s = true ->
+  collapse_edge s he = Some (s', r) -> tet_shape s' /\ deferred s' = false /\ fast s' = true.
+Proof. exact collapse_edge_immediate_fast. Qed.
+Print Assumptions C15_collapse_immediate_fast_partial.
+
 (* ---- non-vacuity *)
+Example C15_inside_history_with_removals :
+  let ops := [TK (AddVertices 6); TAddCellV [0; 1; 2; 3] true; TAddCellV [0; 1; 3; 4] true; TAddCell4 0 1 4 5 false;
+              TK (SwapF 0 3); TK (SwapC 0 2); TCollapse 0; TK CollectGarbage;
+              TK (EnableDeferred false); TAddCellV [0; 1; 2; 3] true; TAddCellV [0; 1; 3; 4] true; TK (DelFace 0); TCollapse 2] in
+  inside_along empty_mesh ops /\ nc (tet_run ops) = 1 /\ nf (tet_run ops) = 4.
+Proof. exact inside_history_with_removals. Qed.
+
 Example C15_a_tetrahedron_is_well_formed : tet_wf one_tet 0 [0; 2; 4; 6] [0; 1; 2; 3].
 Proof. exact one_tet_wf. Qed.
 
